@@ -168,7 +168,7 @@ def run(R, only=None):
     rnd = random.Random(R.seed)
     n = 330 if R.tier == "quick" else 3000
     k = 3 if R.tier == "quick" else 12
-    specs = only or (WITNESSES + [GV.gen_value(rnd, supported=True, max_depth=3 if R.tier == "quick" else 4) for _ in range(n)])
+    specs = only or (WITNESSES + [GV.gen_value(rnd, supported=True, max_depth=3 if R.tier == "quick" else 4, objects=True) for _ in range(n)])
     recs = run_impl_codec(specs, {"protocol": snap["protocol"], "cycles": k})
     bad, flags, idx = model_compare(R, recs, "c05", flags=["c05_case_supported", PROVED, EXACT, SAME])
     nsup = nproved = nexact = 0
